@@ -245,6 +245,14 @@ func opFrDec(fails *[]string, kind string, data []byte) string {
 	assertf(fails, bytes.Equal(buf, orig), "decoder %s modified its input: %x -> %x", kind, orig, buf)
 	e2, ok2 := dec(buf)
 	assertf(fails, ok1 == ok2 && e1.Equal(&e2), "decoding the same buffer twice differs (%s)", kind)
+	// not even a transient write: the same input from read-only memory
+	var e3 fr.Element
+	var ok3 bool
+	wrote := withReadOnly(orig, func(ro []byte) { e3, ok3 = dec(ro) })
+	assertf(fails, !wrote, "decoder %s writes to its input (fault on a read-only buffer)", kind)
+	if !wrote {
+		assertf(fails, ok3 == ok1 && e3.Equal(&e1), "decoding from a read-only buffer differs (%s)", kind)
+	}
 	if !ok1 {
 		return "err"
 	}
@@ -555,6 +563,15 @@ func opPtDec(fails *[]string, data []byte) string {
 	}
 	// the untrusted decision is a function of the bytes alone: it must not change after the
 	// trusted decoder (which accepts by contract) has seen the same bytes, nor when repeated
+	{
+		var ro banderwagon.Element
+		var errRO error
+		wrote := withReadOnly(orig, func(b []byte) { errRO = ro.SetBytes(b) })
+		assertf(fails, !wrote, "SetBytes writes to its input (fault on a read-only buffer)")
+		if !wrote {
+			assertf(fails, (errRO == nil) == (err == nil), "SetBytes from a read-only buffer decides differently")
+		}
+	}
 	if len(data) == 32 {
 		var t, again banderwagon.Element
 		_ = t.SetBytesUnsafe(data)
@@ -598,6 +615,15 @@ func opPtDecUnc(fails *[]string, data []byte, trusted bool) string {
 	p := genMultiple(3) // a reused receiver
 	err := p.SetBytesUncompressed(data, trusted)
 	assertf(fails, bytes.Equal(orig, data), "SetBytesUncompressed modified its input")
+	{
+		var ro banderwagon.Element
+		var errRO error
+		wrote := withReadOnly(orig, func(b []byte) { errRO = ro.SetBytesUncompressed(b, trusted) })
+		assertf(fails, !wrote, "SetBytesUncompressed writes to its input (fault on a read-only buffer)")
+		if !wrote {
+			assertf(fails, (errRO == nil) == (err == nil), "SetBytesUncompressed from a read-only buffer decides differently")
+		}
+	}
 	if !trusted {
 		// history independence of the untrusted decision (trusted decoding of the same bytes in between)
 		var t, again banderwagon.Element
